@@ -1401,7 +1401,7 @@ class Engine:
                 return CallModel(dsd, 'dict.setdefault')
             raise Refuse('dict method ' + attr)
         if is_sym(obj) or isinstance(obj, (SymList, SymMem, TabRef)):
-            if isinstance(obj, SymList) and attr in ('append', 'extend', 'insert', 'pop', 'index', 'count', 'copy'):
+            if isinstance(obj, SymList) and attr in ('append', 'extend', 'insert', 'pop', 'index', 'count', 'copy', 'reverse'):
                 return ('listmethod', obj, attr)
             raise Refuse('attribute %s of %s' % (attr, type(obj).__name__))
         key = (id(obj), attr)
@@ -1508,6 +1508,9 @@ class Engine:
             return lst.items.pop(*args)
         if meth == 'copy':
             return SymList(lst.items)
+        if meth == 'reverse' and not args:
+            lst.items.reverse()
+            return None
         raise Refuse('list method ' + meth)
 
     def sym_builtin(self, f, name, args, kwargs, node):
